@@ -21,3 +21,18 @@ package service
 //@   ensures[C20] err == nil ==> len(result0) == 1 && result0[0].Target.Digest == dparse(labels[targetLayerDigestLabel])
 //@   assert[C20] after "if urls, ok := labels[targetImageURLsLabelPrefix" : ok ==> urls == labels[targetImageURLsLabelPrefix + sprintf("%d", rangeidx)]
 //@   ensures[C20] err == nil && (!(targetURLsLabel in labels) || labels[targetURLsLabel] == "") ==> len(result0[0].Target.URLs) == 0
+
+// ---- C07: the opaque-directory xattr flavour follows the overlayfs mount option in use ----
+// When overlayfs has to be mounted with "userxattr" (the snapshotter runs in a user namespace) the layers must mark opaque
+// directories with user.overlay.opaque, else with trusted.overlay.opaque; the choice handed to the filesystem is made
+// from the probe's answer (opqGiven: opaque type passed to the last WithOverlayOpaqueType).
+//@ ghost opqGiven int quiet
+//@ func fs.WithOverlayOpaqueType
+//@   trusted
+//@   modifies opqGiven
+//@   ensures opqGiven == overlayOpaqueType && result != nil
+//@ func NewFileSystem
+//@   props C07
+//@   taggedonly
+//@   requires config != nil && (forall j int :: 0 <= j && j < len(opts) ==> opts[j] != nil)
+//@   assert[C07] before "stargzfs.NewFilesystem(fsRoot(root)" : opqGiven == (userxattr ? layer.OverlayOpaqueUser : layer.OverlayOpaqueTrusted)
